@@ -117,15 +117,15 @@ class TcpSession:
                     self.c.emit(name, data, namespace=ns, callback=callback)
                 else:
                     result = self.c.call(name, data, namespace=ns,
-                                         timeout=30)
+                                         timeout=15)
             else:
                 if mode == 'emit_cb':
                     self.sio.emit(name, data, to=self.sids[ns], namespace=ns,
                                   callback=callback)
                 else:
                     result = self.sio.call(name, data, to=self.sids[ns],
-                                           namespace=ns, timeout=30)
-            if mode == 'emit_cb' and not done.wait(30):
+                                           namespace=ns, timeout=15)
+            if mode == 'emit_cb' and not done.wait(15):
                 ctx.count('tcp_timeouts_skipped')
                 return
         except Exception as e:
@@ -192,7 +192,7 @@ def run_part(ctx, seconds, k0=0, min_messages=30):
         now = time.time()
         if now >= t_end and (
                 ctx.counters.get('tcp_messages_judged', 0) >= min_messages
-                or now >= t0 + 4 * seconds):
+                or now >= t0 + 2.5 * seconds):
             break
         rng = ctx.case_rng(5 * 10 ** 7 + k)
         try:
@@ -203,9 +203,12 @@ def run_part(ctx, seconds, k0=0, min_messages=30):
             ctx.notes['tcp'] = 'unavailable: %r' % (e,)
             return
         try:
+            t_before = ctx.counters.get('tcp_timeouts_skipped', 0)
             for _ in range(rng.choice([10, 25])):
                 s.one()
-                if s.failed or time.time() > t0 + 4 * seconds + 20:
+                if s.failed or time.time() > t0 + 2.5 * seconds + 20 or \
+                        ctx.counters.get('tcp_timeouts_skipped', 0) > \
+                        t_before:
                     break
             ctx.count('tcp_sessions')
         finally:
